@@ -12,7 +12,7 @@ from vlib import common, realrun, workload
 
 def make_case(r):
     kind = r.choice(['eq', 'let', 'dt', 'empty', 'general', 'fresh', 'fresh',
-                     'defs', 'lets', 'long'])
+                     'defs', 'lets', 'long', 'first'])
     extra = []
     if kind == 'eq':
         lines = ['(declare-const a Int)', '(declare-const b Int)',
@@ -53,6 +53,17 @@ def make_case(r):
                  f'(declare-const {nm} (_ BitVec 48))',
                  f'(assert (= {nm} {lit}))',
                  f'(assert (bvult (bvadd {nm} {lit}) {nm}))', '(check-sat)']
+    elif kind == 'first':
+        # the accepted step that puts one node at several places (a symbol
+        # renamed everywhere) is generated at the *first* node of the input:
+        # the next round of strategy hierarchical continues at position 0
+        nm = r.choice(['abcdefgh', 'counter_value', 'tmp_result_17'])
+        other = r.choice(['qrstuvwx', 'limit_value'])
+        lines = [f'(declare-const {nm} Int)', f'(declare-const {other} Int)',
+                 f'(assert (> {nm} 0))', f'(assert (< {nm} {other}))',
+                 f'(assert (distinct {other} (+ {nm} {nm})))', '(check-sat)']
+        extra = ['--disable-all', '--simplify-symbol-names'] + \
+            r.choice([[], ['--erase-node'], ['--replace-by-variable']])
     elif kind == 'lets':
         # many binders, parallel ddmin, a command that accepts nothing but
         # substitutions into let bodies (the text may only grow): the last
@@ -103,6 +114,10 @@ def make_case(r):
     if kind == 'lets':
         strat = r.choice(['ddmin', 'hybrid'])
         j = r.choice([2, 2, 3])
+    if kind == 'first':
+        strat = r.choice(['hierarchical', 'hierarchical', 'hybrid'])
+        rules = realrun.simple_spec(r.choice(['all', 'has:check-sat',
+                                              'count:assert>=2']))
     opts = ['--strategy', strat, '-j', str(j), '--timeout', '20']
     if r.random() < 0.5:
         opts += ['--arithmetic', '--datatypes']
